@@ -60,6 +60,23 @@ def lemire_classes(fmt, tier, seed, focus=None):
     return sorted(out)
 
 
+def lemire_threshold_classes(fmt, step=1):
+    """Classes within a few bits of the places where compute_float changes regime: the round-to-zero threshold, the
+    64-bit subnormal shift limit (2^-64 below the smallest normal), and the overflow threshold."""
+    F = specs.FORMATS[fmt]
+    zero_t = -F["bias"]
+    min_norm = 1 - F["bias"] + F["p1"]
+    inf_t = F["inf"] - 1 - F["bias"] + F["p1"] + 1
+    qlo, qhi = table_range(fmt)
+    out = []
+    for q in range(qlo, qhi + 1):
+        for lz in range(64):
+            approx = (63 - lz) + q * 3.321928094887362
+            if zero_t - 3 <= approx <= zero_t + 2 or min_norm - 67 <= approx <= min_norm - 61 or inf_t - 2 <= approx <= inf_t + 2:
+                out.append((q, lz))
+    return out[::step]
+
+
 def replay_moderate(report, runner_cfg, fmt, q, w, many, what, job):
     """Confirm a moderate-path counterexample on the real crate.  Returns True if it reproduces."""
     r = C.Runner(runner_cfg, "release")
@@ -578,13 +595,18 @@ def run_capacity(report):
 
 FORBID = ["#[kani::stub(std::alloc::alloc, crate::forbid_alloc)]",
           "#[kani::stub(std::alloc::alloc_zeroed, crate::forbid_alloc)]",
-          "#[kani::stub(std::alloc::realloc, crate::forbid_realloc)]"]
+          "#[kani::stub(std::alloc::realloc, crate::forbid_realloc)]",
+          "#[kani::stub(std::fmt::format, crate::forbid_format)]"]
 FORBID_FN = """
 /// C15: replacements for the global allocation entry points in configurations without `alloc`.
 pub unsafe fn forbid_alloc(_layout: core::alloc::Layout) -> *mut u8 {
     panic!("HEAP-ALLOCATION");
 }
 pub unsafe fn forbid_realloc(_p: *mut u8, _layout: core::alloc::Layout, _n: usize) -> *mut u8 {
+    panic!("HEAP-ALLOCATION");
+}
+/// `format!` builds a heap String: cut it off at the entry (its internals are very expensive for CBMC)
+pub fn forbid_format(_args: core::fmt::Arguments<'_>) -> String {
     panic!("HEAP-ALLOCATION");
 }
 """
@@ -618,7 +640,8 @@ def run_forbid_alloc(report, tier, seed):
     lib = open(C.os.path.join(C.VERIF, "kani", "vec", "src", "lib.rs")).read() + libadd
     extra_lm = ""
     K.set_generated("vec", {"src/instances.rs": _with_forbid(src), "src/lib.rs": lib})
-    hs = [h for h in names["C12"] + names["C12_stub"] if any(k in h for k in ("large_add_from", "small_mul", "pow_", "long_mul", "hi64_2", "hi64_62", "shl_limbs_2"))]
+    hs = [h for h in names["C12"] + names["C12_stub"] if any(k in h for k in ("concrete", "pow_", "long_mul"))] + \
+         [h for h in names["C12"] + names["C12_stub"] if any(k in h for k in ("large_add_from", "small_mul", "hi64_2", "hi64_62", "shl_limbs_2"))]
     run_kani(report, "vec", "default", hs[:40], "forbid-alloc/bigint", timeout=900, lanes=12, extra=("-Z", "stubbing"))
     K.set_generated("vec", {})
     # slow glue
